@@ -5,6 +5,7 @@ interleaved with explainers built on other models (some created and garbage-coll
 Model: Lean Hist.* state machines (Occlusion geometry, Lime defaults, model cache).
 """
 import gc
+from fractions import Fraction
 
 import numpy as np
 
@@ -393,12 +394,42 @@ def run_override_case(ctx, d):
         ok, got = ctx.impl_call(dd, do)
         if not ok:
             continue
+        if step != "Saliency":
+            # frame condition of the override: the explainer's (cloned) model owns none of the user's layer objects
+            shared = set(map(id, objs[step].model.layers)) & set(map(id, model.layers))
+            ctx.check_prop("override-clone-shares-no-layer-object", not shared, dd, {"shared_layers": len(shared)})
         want = getattr(A, step)(twin, batch_size=d["bs"])(x, y).numpy()
         ctx.check_prop("explainer-unaffected-by-later-explainers", got.shape == want.shape and bool(np.allclose(got, want, rtol=1e-5, atol=1e-6)),
                        dd, {"got": got.reshape(-1)[:6].tolist(), "want": want.reshape(-1)[:6].tolist()}, signature="override:" + step)
         gm, gt = user_grad(model, x, y), user_grad(twin, x, y)
         ctx.check_prop("user-model-backprop-unchanged", bool(np.allclose(gm, gt, rtol=1e-5, atol=1e-6)), dd,
                        {"got": gm.reshape(-1)[:6].tolist(), "want": gt.reshape(-1)[:6].tolist()})
+    # ---- the Lean heap model of clone + re-route (Hist.overrideAll): shared layer objects and rules at the END ----
+    built = [st for st in dict.fromkeys(d["steps"]) if st in objs and st != "Saliency"]
+    if built:
+        relu_flags = [bool(isinstance(l, (tf.keras.layers.ReLU,)) or getattr(l, "activation", None) in (tf.nn.relu, tf.keras.activations.relu))
+                      for l in model.layers]
+        lm = ctx.driver.call({"op": "hist_override", "relu": relu_flags,
+                              "steps": [{"DeconvNet": "deconv", "GuidedBackprop": "guided"}[st] for st in built]})
+        shared = [len(set(map(id, objs[st].model.layers)) & set(map(id, model.layers))) for st in built]
+        ctx.check_corr("override_shared_layer_objects", shared, [Fraction(v) for v in lm["shared"]], d, rtol=0, atol=0)
+        xr, yr = data(d["N_final"] + 2)                       # a batch shape nobody has traced yet
+        ref = {"plain": user_grad(twin, xr, yr),
+               "deconv": A.DeconvNet(twin, batch_size=None)(xr, yr).numpy(),
+               "guided": A.GuidedBackprop(twin, batch_size=None)(xr, yr).numpy()}
+
+        def rules_matching(g):
+            return sorted(k for k, v in ref.items() if v.shape == g.shape and np.allclose(g, v, rtol=1e-5, atol=1e-6))
+        got_user = rules_matching(user_grad(model, xr, yr))
+        want_user = sorted(set(lm["user_rules"]))
+        ctx.check_prop("user-model-rule-as-modelled", all(r in got_user for r in want_user), dict(d, step="end"),
+                       {"matching_rules": got_user, "model": want_user})
+        for st, rules in zip(built, lm["clone_rules"]):
+            ok, g = ctx.impl_call(dict(d, step="end:" + st), lambda: objs[st](xr, yr).numpy())
+            if ok:
+                got = rules_matching(g)
+                ctx.check_prop("explainer-rule-as-modelled", all(r in got for r in set(rules)), dict(d, step="end:" + st),
+                               {"matching_rules": got, "model": sorted(set(rules))}, signature="override-rule:" + st)
     xn, yn = data(d["N_final"])
     for nm, ex in (("Saliency-created-before", sal_before), ("Saliency-created-after", A.Saliency(model, batch_size=d["bs"])),
                    ("GradientInput-created-after", A.GradientInput(model, batch_size=d["bs"]))):
